@@ -137,6 +137,8 @@ def run_shard(spec, R):
         fscale = max(float(np.max(np.abs(f_flat))), 1e-300)
         mb_tol = 1e-9 if backend == "direct" else 1e-6
 
+        ml_key = "C04:flux_reduced_iterative_backend_diverges_multilevel" if (formulation == "flux_reduced" and backend in ("amg", "cg") and M.num_cells + 1 > 100) else None
+
         def build(fail_at=None, deep=False):
             opt = wass.make_options(darsia, c["method"], c["l1"], c["mob"], formulation, backend, c["aa"], num_iter, extra)
             grid = darsia.generate_grid(m1)
@@ -246,7 +248,7 @@ def run_shard(spec, R):
             if ok:
                 rel = 1e-7 if (backend in ("amg", "cg") and M.num_cells > 99) else 0.0  # multilevel set-up is randomised (pyamg)
                 R.check(isinstance(rs, tuple) and abs(float(rs[0]) - float(dist)) <= rel * abs(float(dist)) and (bool(rs[1]) == conv or rel > 0), "return_status_path_agrees",
-                        {**desc, "got": str(rs)[:80], "info_path": [float(dist), conv]})
+                        {**desc, "got": str(rs)[:80], "info_path": [float(dist), conv]}, key=ml_key)
         if swallowed or flux is None:
             # the clean run itself stopped on an internal failure: no fault enumeration on top
             R.skip("fault_enumeration:clean_run_already_failed")
@@ -277,6 +279,8 @@ def run_shard(spec, R):
             desc = {**desc, "fault_site": label.split("/")[1]}
             post_key = {"post": "C04:iterate_advanced_before_failure", "nan": "C04:non_finite_iterate_accepted"}.get(deep)
             multilevel_iterative = backend in ("amg", "cg") and M.num_cells > 99
+            if ml_key:  # the diverging back-end of the recorded finding returns different garbage in every run
+                post_key = ml_key
             if deep != "nan":
                 R.check(any("InjectedFault" in s for s in capf.swallowed) or not getattr(capf, "monitoring", False), "fault:observed_swallowed", {**desc, "k": k, "swallowed": capf.swallowed})
             df, solf, infof = capf.solve_result
